@@ -76,7 +76,7 @@ class Pauli(object):
         return self + (-other)
 
     def __matmul__(self, other):
-        if isinstance(other, Pauli):
+        if isinstance(other, Pauli) and not isinstance(other, PauliMonomial):
             p = (self.p + other.p + ipow(self.g, other.g)) % 4
             g = (self.g + other.g) % 2
             return Pauli(g, p)
